@@ -59,6 +59,9 @@ pub struct World {
   /// whether disconnected transactions stay known to the node
   pub keep_disconnected: bool,
   pub reorg_count: u32,
+  /// tier 3: wallets, mempool of broadcast transactions
+  pub wallet_side: crate::wallet_node::WalletSide,
+  pub wallet_rng: Rng,
 }
 
 #[derive(Default, Debug, Clone)]
@@ -94,6 +97,10 @@ pub fn script_for(spec: &ScriptSpec) -> ScriptBuf {
       2 => script_for(&ScriptSpec::P2tr(60002)),
       _ => ScriptBuf::from_bytes(vec![0x51]),
     },
+    ScriptSpec::Wallet(w, k) => crate::wallet_node::wallet_script(
+      if *w == 0 { "ord" } else { "buyer" },
+      u32::from(*k) % crate::wallet_node::POOL,
+    ),
     ScriptSpec::Empty => ScriptBuf::new(),
     ScriptSpec::OpReturn(data) => {
       let mut b = vec![0x6a];
@@ -178,6 +185,8 @@ impl World {
       stats: WorldStats::default(),
       keep_disconnected: true,
       reorg_count: 0,
+      wallet_side: Default::default(),
+      wallet_rng: Rng::new(0x77616c6c6574),
     };
     let genesis = bitcoin::blockdata::constants::genesis_block(network);
     let mut m = Model::new(params);
@@ -234,6 +243,15 @@ impl World {
 
     let mut txdata = Vec::new();
     let block_start_seq = m.next_seq;
+    if spec.include_mempool {
+      for tx in self.drain_mempool() {
+        // a broadcast transaction whose inputs were spent meanwhile is dropped
+        if tx.input.iter().all(|i| m.utxos.contains_key(&i.previous_output)) {
+          m.apply_tx(&tx);
+          txdata.push(tx);
+        }
+      }
+    }
     for spec in &spec.txs {
       if let Some(tx) = self.realize_tx(&m, spec, height, block_start_seq, txdata.len() as u32 + 1) {
         m.apply_tx(&tx);
@@ -933,6 +951,19 @@ impl World {
     })
   }
 
+  pub fn rpc_wallet(&mut self, wallet: Option<&str>, method: &str, params: &[Value]) -> Result<Value, RpcError> {
+    let mut rng = self.wallet_rng.clone();
+    let r = self.wallet_rpc(wallet, method, params, &mut rng);
+    self.wallet_rng = rng;
+    match r {
+      Some(r) => {
+        *self.stats.rpc_calls.entry(method.to_string()).or_default() += 1;
+        r
+      }
+      None => self.rpc(method, params),
+    }
+  }
+
   pub fn rpc(&mut self, method: &str, params: &[Value]) -> Result<Value, RpcError> {
     *self.stats.rpc_calls.entry(method.to_string()).or_default() += 1;
     match method {
@@ -1041,7 +1072,12 @@ impl World {
         let tx = match (&containing, self.mempool.get(&txid)) {
           (Some(_), _) => self.txs.get(&txid).cloned(),
           (None, Some(tx)) => Some(tx.clone()),
-          (None, None) => None,
+          (None, None) => self
+            .wallet_side
+            .mempool
+            .iter()
+            .find(|t| t.compute_txid() == txid)
+            .cloned(),
         };
         let Some(tx) = tx else {
           return Err(Self::no_such_tx());
@@ -1101,8 +1137,32 @@ impl World {
         let Some(txid) = txid else {
           return Ok(Value::Null);
         };
+        let include_mempool = params.get(2).and_then(|v| v.as_bool()).unwrap_or(true);
+        let outpoint = OutPoint { txid, vout };
+        if include_mempool && !self.wallet_side.mempool.is_empty() {
+          return Ok(match self.spendable_view().get(&outpoint) {
+            Some((o, h)) => {
+              let mut spk = json!({
+                "asm": "",
+                "hex": hex::encode(o.script_pubkey.as_bytes()),
+                "type": "nonstandard",
+              });
+              if let Ok(address) = bitcoin::Address::from_script(&o.script_pubkey, self.network) {
+                spk["address"] = json!(address.to_string());
+              }
+              json!({
+                "bestblock": self.best.last().unwrap().to_string(),
+                "confirmations": h.map(|h| self.tip_height() - h + 1).unwrap_or(0),
+                "value": o.value.to_btc(),
+                "scriptPubKey": spk,
+                "coinbase": false,
+              })
+            }
+            None => Value::Null,
+          });
+        }
         let m = self.tip_model();
-        match m.utxos.get(&OutPoint { txid, vout }) {
+        match m.utxos.get(&outpoint) {
           Some(u) if !u.script.is_op_return() => {
             let mut spk = json!({
               "asm": "",
